@@ -45,6 +45,8 @@ namespace vg {
         bool                              outstanding = false; // indication sent, confirmation not yet received
         std::set< std::pair< int, int > > maybe;               // (chr, kind 0=notification 1=indication) possibly pending
         std::set< std::pair< int, int > > certain;             // certainly pending (never droppable since requested)
+        std::set< std::pair< int, int > > ghost;               // was droppable when the queue was polled: dropped or still queued
+        int                               ghost_budget = 0;    // upper bound of the ghosts that are still queued
     };
 
     struct QueueEntry
@@ -1182,7 +1184,9 @@ namespace vg {
                 if ( !con[ c ].connected )
                     continue;
                 const bool was_pending = con[ c ].certain.count( { chr, kind } ) != 0;
-                const bool may_pending = con[ c ].maybe.count( { chr, kind } ) != 0;
+                const bool may_pending = con[ c ].maybe.count( { chr, kind } ) != 0 || con[ c ].ghost.count( { chr, kind } ) != 0;
+                con[ c ].ghost.erase( { chr, kind } );
+                con[ c ].ghost_budget = std::min< int >( con[ c ].ghost_budget, static_cast< int >( con[ c ].ghost.size() ) );
                 if ( first )
                 {
                     if ( was_pending )
@@ -1235,8 +1239,26 @@ namespace vg {
                         sendable = true;
                 }
                 // given < 3 can not carry anything
+                // an empty poll while something could be sent means: a request that can not be sent was dequeued and dropped
                 if ( given >= 3 )
-                    require( !sendable || droppable, "c11.lost", "l2cap_output produced nothing although a request for a subscribed characteristic is pending on connection ", c );
+                    require( !sendable || droppable || cs.ghost_budget > 0, "c11.lost", "l2cap_output produced nothing although a request for a subscribed characteristic is pending on connection ", c );
+                int moved = 0;
+                for ( auto i = cs.maybe.begin(); i != cs.maybe.end(); )
+                {
+                    if ( !subscribed( c, i->first, i->second ) || hidden( c, i->first ) )
+                    {
+                        cs.ghost.insert( *i );
+                        i = cs.maybe.erase( i );
+                        ++moved;
+                    }
+                    else
+                        ++i;
+                }
+                if ( sendable && given >= 3 )
+                    cs.ghost_budget += moved ? moved - 1 : -1;
+                else
+                    cs.ghost_budget += moved;
+                cs.ghost_budget = std::max( 0, std::min< int >( cs.ghost_budget, static_cast< int >( cs.ghost.size() ) ) );
                 return;
             }
             leak_check( c, out, "outgoing PDU" );
@@ -1247,7 +1269,7 @@ namespace vg {
             require( ai >= 0 && db.attrs[ ai ].kind == A_VALUE, "c10.handle", "outgoing PDU ", verif::hex( out ), " carries handle ", h, " which is no characteristic value" );
             const int  chr = db.attrs[ ai ].chr;
             const Chr& ch  = db.chrs[ chr ];
-            require( cs.maybe.count( { chr, kind } ) != 0, "c10.handle", kind ? "indication" : "notification", " for characteristic ", chr, " (handle ", h,
+            require( cs.maybe.count( { chr, kind } ) != 0 || cs.ghost.count( { chr, kind } ) != 0, "c10.handle", kind ? "indication" : "notification", " for characteristic ", chr, " (handle ", h,
                 ") was sent but not requested (pending: ", pending_text( c ), ")" );
             require( subscribed( c, chr, kind ), "c10.subscription", kind ? "indication" : "notification", " for characteristic ", chr, " sent to connection ", c,
                 " which is not subscribed for it (CCCD ", cs.cccd[ chr ], ")" );
@@ -1269,6 +1291,8 @@ namespace vg {
             if ( static_cast< int >( v.size() ) > mtu( c ) - 3 && static_cast< int >( given ) >= mtu( c ) )
                 require( static_cast< int >( out.size() ) == mtu( c ), "c08.uses-mtu", "a value longer than the MTU must fill the negotiated MTU ", mtu( c ), ", got ", out.size(), " bytes" );
             cs.maybe.erase( { chr, kind } );
+            cs.ghost.erase( { chr, kind } );
+            cs.ghost_budget = std::min< int >( cs.ghost_budget, static_cast< int >( cs.ghost.size() ) );
             cs.certain.erase( { chr, kind } );
         }
 
